@@ -1,6 +1,5 @@
-use crate::{
-    Comparison, LinearModel, LpSolution, MILPValue, SolverError, solve_milp_lp_problem,
-};
+use crate::solvers::common::variable_free_verdict;
+use crate::{LinearModel, LpSolution, MILPValue, SolverError, solve_milp_lp_problem};
 use indexmap::IndexMap;
 
 /// Solves any kind of linear programming problem with the built-in MILP solver.
@@ -47,23 +46,9 @@ use indexmap::IndexMap;
 /// let solution = auto_solver(&model).unwrap();
 /// ```
 pub fn auto_solver(lp: &LinearModel) -> Result<LpSolution<MILPValue>, SolverError> {
-    if lp.domain().is_empty() {
-        // Without variables every row is a comparison between constants; a
-        // violated one (for example `0 = 1` from a contradictory constraint)
-        // makes the model infeasible.
-        let violated = lp.constraints().iter().any(|row| {
-            let rhs = row.rhs();
-            match row.constraint_type() {
-                Comparison::LessOrEqual => !(0.0 <= rhs),
-                Comparison::GreaterOrEqual => !(0.0 >= rhs),
-                Comparison::Equal => rhs != 0.0,
-                Comparison::Less => !(0.0 < rhs),
-                Comparison::Greater => !(0.0 > rhs),
-            }
-        });
-        if violated {
-            return Err(SolverError::Infeasible);
-        }
+    // Without variables every row is a comparison between constants.
+    if let Some(verdict) = variable_free_verdict(lp) {
+        verdict?;
         // A variable-free model still carries a constant objective (the offset).
         return Ok(LpSolution::new(
             vec![],
